@@ -236,6 +236,20 @@ CHECKS["C05"] = dict(
          "CrossHair/z3. One open known finding (class attribute captures a global inside methods).",
     design="4/C05")
 
+CHECKS["C02"] = dict(
+    level="translation_validation", engine="T",
+    technique="per (core program, frontend): the real lian frontend lowers the rendering in that language (main.py lang, seven "
+              "frontends in one project); CrossHair (z3) symbolically co-executes CPython on the Python rendering and lian's GIR "
+              "rows under ONE reference interpreter with ONE instruction vocabulary, for all entry arguments",
+    text="Translation validation across frontends: 31 core programs (arithmetic, comparisons, logical operators, if/else, while, "
+         "counted for, break/continue, calls, recursion) x 7 frontends; for each pair the solver decides equality of outputs "
+         "and return value for all arguments; an operation or operand column outside the shared vocabulary makes a program "
+         "non-executable and is a divergence. Failing construct x frontend cells are listed individually as known findings; "
+         "the matrix defended is written to evidence on every run.",
+    note="Trusted: CPython on the Python rendering as reference semantics, the renderers (vlib/core_lang.py), the reference "
+         "interpreter, CrossHair/z3. Tolerated extra: TypeScript's expression_stmt (not consumed by any handler).",
+    design="4/C02")
+
 NOT_APPLICABLE = {
     "C12": "A relation between two whole-pipeline runs on syntactically edited programs: the quantified objects are "
            "program texts and edit sequences; no run-time input, id, flag or history for a solver to range over; "
